@@ -3,6 +3,7 @@ package checks
 import (
 	"encoding/json"
 	"fmt"
+	"github.com/emitter-io/emitter/internal/verifauto"
 	"sort"
 	"strings"
 	"time"
@@ -19,9 +20,9 @@ import (
 func init() {
 	kernel.Register(&kernel.World{
 		Property: "C18", Bubble: true, Run: runC18, RunsPerProc: 150, RunTimeout: 300 * time.Second,
-		Rule: "one run = one real broker (emitter or mqtt matcher; cluster configured, or absent in the 'nocluster' campaign) and 3-5 clients with usernames; tape-generated subscribe / unsubscribe / abrupt disconnect + reconnect on literal channels of depth 1-3 over {a,b}, presence requests (status and/or changes on/off, keys with/without the presence permission) on exact and parent channels. Every status reply must list exactly the (connection id, username) pairs of the model that would receive a publish on that channel; every watcher's notification stream must contain one subscribe / unsubscribe per transition on the watched channel or below (emitter matcher; exact channel under the mqtt matcher), in per-connection order, and nothing after it cancelled. non-trivial = >= 1 status reply with a non-empty expected list or >= 1 expected notification; distinct = distinct canonical logs",
-		Real:  []string{"broker.Service, broker.Conn", "presence service (OnRequest, Notify queue, lookupPresence)", "pubsub, message.Trie", "survey.Surveyor"},
-		Stub:  []string{"client sockets (simnet)", "weaveworks/mesh (simmesh, single node)", "clock (synctest)"},
+		Rule:        "one run = one real broker (emitter or mqtt matcher; cluster configured, or absent in the 'nocluster' campaign) and 3-5 clients with usernames; tape-generated subscribe / unsubscribe / abrupt disconnect + reconnect on literal channels of depth 1-3 over {a,b}, presence requests (status and/or changes on/off, keys with/without the presence permission) on exact and parent channels. Every status reply must list exactly the (connection id, username) pairs of the model that would receive a publish on that channel; every watcher's notification stream must contain one subscribe / unsubscribe per transition on the watched channel or below (emitter matcher; exact channel under the mqtt matcher), in per-connection order, and nothing after it cancelled. non-trivial = >= 1 status reply with a non-empty expected list or >= 1 expected notification; distinct = distinct canonical logs",
+		Real:        []string{"broker.Service, broker.Conn", "presence service (OnRequest, Notify queue, lookupPresence)", "pubsub, message.Trie", "survey.Surveyor"},
+		Stub:        []string{"client sockets (simnet)", "weaveworks/mesh (simmesh, single node)", "clock (synctest)"},
 		Assumptions: []string{"subscriptions use literal filters: the statement does not say whether a '+' filter is 'on a sub-channel' of a watched channel", "under the mqtt matcher only watchers of the exact channel are asserted"},
 	})
 }
@@ -64,6 +65,29 @@ func runC18(c *kernel.Ctx) {
 		runC18Stall(c, b, kP, kNoP)
 		return
 	}
+	// a third of the runs: the broker's goroutines (connections, the presence notification loop) are
+	// interleaved by the tape at the boundaries tools/autoyield put around the mutex operations of the
+	// trie and the presence service (nobody parks while holding a mutex)
+	sched := t.Chance(1, 3)
+	baton := kernel.NewBaton()
+	if sched {
+		baton.Auto = []string{"internal/message/subtrie.go", "internal/service/presence/"}
+		baton.AutoSkip = []string{":Trie.Count:"}
+		verifauto.Hook, verifauto.AcquireHook, verifauto.LockHook = baton.Hook, baton.AcquireHook, baton.LockHook
+		defer func() { verifauto.Hook, verifauto.AcquireHook, verifauto.LockHook = nil, nil, nil }()
+		defer baton.ReleaseAll()
+	}
+	settle := func() {
+		world.Settle()
+		if !sched {
+			return
+		}
+		if _, stuck := baton.Drive(t, world.Settle, func(p *kernel.Parked, runnable, waiting int) {
+			c.Logf("  task crosses %s (%d of %d can run)", p.Site, runnable, waiting)
+		}, 2000); stuck {
+			c.Harnessf("C18 sched: %d tasks parked, none can run", baton.Waiting())
+		}
+	}
 	var clients []*c18Client
 	nc := 0
 	attach := func() *c18Client {
@@ -78,6 +102,10 @@ func runC18(c *kernel.Ctx) {
 	for i := 0; i < t.Range(3, 5); i++ {
 		attach()
 	}
+	if sched {
+		baton.SetActive(true)
+	}
+	c.Logf("sched=%v", sched)
 	lits := []string{"a", "b"}
 	genChan := func() []string {
 		d := t.Range(1, 3)
@@ -174,10 +202,28 @@ func runC18(c *kernel.Ctx) {
 		}
 		cc := lv[t.Choose(len(lv))]
 		switch k := t.Choose(20); {
+		case k < 6 && t.Chance(1, 5): // two transitions of one connection in one write: their notifications are in flight together
+			ch := genChan()
+			name := model.Join(ch)
+			var buf []byte
+			if cc.subs[name] {
+				buf = append(mqttc.Encode(cc.cl.Unsubscribe(kNoP+"/"+name)), mqttc.Encode(cc.cl.Subscribe(kNoP+"/"+name))...)
+				c.Logf("c%d unsubscribe+subscribe %s in one write", cc.idx, name)
+				notify("unsubscribe", cc, ch)
+				notify("subscribe", cc, ch)
+			} else {
+				buf = append(mqttc.Encode(cc.cl.Subscribe(kNoP+"/"+name)), mqttc.Encode(cc.cl.Unsubscribe(kNoP+"/"+name))...)
+				c.Logf("c%d subscribe+unsubscribe %s in one write", cc.idx, name)
+				notify("subscribe", cc, ch)
+				notify("unsubscribe", cc, ch)
+			}
+			c.Probe("two-transitions-in-flight")
+			cc.cl.Write(buf)
+			settle()
 		case k < 6: // subscribe
 			ch := genChan()
 			cc.cl.Send(cc.cl.Subscribe(kNoP + "/" + model.Join(ch)))
-			world.Settle()
+			settle()
 			c.Logf("c%d subscribe %s", cc.idx, model.Join(ch))
 			if !cc.subs[model.Join(ch)] {
 				cc.subs[model.Join(ch)] = true
@@ -189,7 +235,7 @@ func runC18(c *kernel.Ctx) {
 				ch = model.Levels(hk[t.Choose(len(hk))])
 			}
 			cc.cl.Send(cc.cl.Unsubscribe(kNoP + "/" + model.Join(ch)))
-			world.Settle()
+			settle()
 			c.Logf("c%d unsubscribe %s", cc.idx, model.Join(ch))
 			if cc.subs[model.Join(ch)] {
 				delete(cc.subs, model.Join(ch))
@@ -198,7 +244,7 @@ func runC18(c *kernel.Ctx) {
 		case k < 11: // the connection goes away
 			cc.cl.Conn.Close()
 			cc.cl.Gone = true
-			world.Settle()
+			settle()
 			c.Logf("c%d disconnects holding %v", cc.idx, sortedKeys(cc.subs))
 			for _, f := range sortedKeys(cc.subs) {
 				notify("unsubscribe", cc, model.Levels(f))
@@ -239,7 +285,7 @@ func runC18(c *kernel.Ctx) {
 			}
 			cc.cl.Recv()
 			cc.cl.Send(cc.cl.Publish("emitter/presence/", mustJSON(body), false, false))
-			world.Settle()
+			settle()
 			pk, err := cc.cl.Recv()
 			if err != nil {
 				c.Failf("status", "undecodable", "%v", err)
@@ -380,7 +426,6 @@ func users(l []string) []string {
 	}
 	return o
 }
-
 
 // runC18Stall: a watcher that stops reading its socket (slow consumer) while
 // other connections make more transitions than the presence queue holds; once
